@@ -1,6 +1,6 @@
 """C05  push is all-or-nothing per patch (DESIGN §4 C05)."""
 from .. import callgraph, cfg, dataflow as df, guards, patterns as pt
-from ..common import A, calls_named, calls_to, dry_run_guards
+from ..common import A, calls_named, calls_to, dry_run_guards, is_log_open
 from ..facts import callee_of
 from . import c04
 
@@ -49,7 +49,7 @@ def log_writers(ck):
     """Functions that open a file in append mode (the applied-patches log writer)."""
     out = set()
     for site, lab in ck.cg.fs_write_sites():
-        if site.callee == "std::fs::OpenOptions::open":
+        if site.callee == "std::fs::OpenOptions::open" and is_log_open(site.caller, site.term):
             out.add(site.caller.id)
     return out
 
@@ -74,7 +74,7 @@ def r1(ck, cmd_push, seq, par):
     prog, cg = ck.prog, ck.cg
     writers = log_writers(ck)
     ck.require(len(writers) == 1, "C05-R1", "one applied-patches log writer",
-               "functions opening a file through OpenOptions: %s" % sorted(writers))
+               "functions opening the applied-patches log (append mode or that path): %s" % sorted(writers))
     wsites = [s for s in cg.out[cmd_push.id] if s.callee in writers and s.term is not None]
     ck.floor("C05-R1", "calls of the log writer in cmd_push", len(wsites), 1)
     # every call of a log writer anywhere must be one of these
